@@ -982,6 +982,410 @@ fn offer(ctx: &mut Ctx, c: &mut Counters, text: &[u8], what: &str) -> (Option<Rs
     }
 }
 
+//------------ family laws ------------------------------------------------------
+
+/// Every law of the module over one family of related rsync URI texts: the
+/// single-URI laws for each member, all ordered pairs, `join` with `args` on
+/// every member, all parent-of chains. Returns (related pairs, members).
+fn rsync_family_laws(ctx: &mut Ctx, c: &mut Counters, texts: &[Vec<u8>], args: &[Vec<u8>], what: &str) -> Option<(u64, usize)> {
+    let mut items = Vec::new();
+    for t in texts {
+        let (r, _) = offer(ctx, c, t, &format!("parse-{what}"));
+        match r {
+            Some(u) => items.push((t.clone(), u)),
+            None => ctx.obs(&format!("{what}_member_rejected"), 1),
+        }
+    }
+    let res = ctx.no_panic(&format!("rsync-{what}"), || json!({"family": texts.iter().map(|t| show(t)).collect::<Vec<_>>()}), || {
+        let mut f = Findings::default();
+        let (dom, _) = build_domain(items, true);
+        let mut n = 0u64;
+        let mut related = 0u64;
+        let (mut ok, mut err) = (0u64, 0u64);
+        for i in 0..dom.len() {
+            for j in 0..dom.len() {
+                let (rel, _) = rsync_pair(&dom, i, j, &mut f);
+                if rel {
+                    related += 1;
+                }
+                n += 1;
+            }
+            for a in args {
+                let (_, joined) = rsync_join(&dom[i].uri, a, &mut f);
+                if joined { ok += 1 } else { err += 1 }
+                n += 1;
+            }
+        }
+        for i in 0..dom.len() {
+            for j in 0..dom.len() {
+                if !dom[i].uri.is_parent_of(&dom[j].uri) {
+                    continue;
+                }
+                for k in 0..dom.len() {
+                    n += 1;
+                    if dom[j].uri.is_parent_of(&dom[k].uri) && !dom[i].uri.is_parent_of(&dom[k].uri) {
+                        f.push("C12:rsync-is_parent_of:not-transitive".into(), "a is parent of b, b is parent of c, but a is not parent of c".into(),
+                            json!({"a": show(&dom[i].text), "b": show(&dom[j].text), "c": show(&dom[k].text)}));
+                    }
+                }
+            }
+        }
+        (f, n, related, ok, err, dom.len())
+    });
+    let (f, n, related, ok, err, size) = res?;
+    c.evals += n;
+    c.joins_ok += ok;
+    c.joins_err += err;
+    f.flush(ctx);
+    Some((related, size))
+}
+
+/// The same for https: single-URI laws, `==` against the reference equality
+/// and hash agreement on all ordered pairs, `join` with `args` on every member.
+/// Returns (equal pairs, members).
+fn https_family_laws(ctx: &mut Ctx, c: &mut Counters, texts: &[Vec<u8>], args: &[Vec<u8>], what: &str) -> Option<(u64, usize)> {
+    let mut items = Vec::new();
+    for t in texts {
+        let (_, h) = offer(ctx, c, t, &format!("parse-{what}"));
+        match h {
+            Some(u) => items.push((t.clone(), u)),
+            None => ctx.obs(&format!("{what}_member_rejected"), 1),
+        }
+    }
+    let res = ctx.no_panic(&format!("https-{what}"), || json!({"family": texts.iter().map(|t| show(t)).collect::<Vec<_>>()}), || {
+        let mut f = Findings::default();
+        let (dom, _) = build_domain(items, false);
+        let mut n = 0u64;
+        let mut equal = 0u64;
+        let (mut ok, mut err) = (0u64, 0u64);
+        for a in dom.iter() {
+            for bb in dom.iter() {
+                n += 1;
+                let eq = a.uri == bb.uri;
+                if eq != (a.cls == bb.cls) {
+                    f.push("C12:https-eq-vs-reference".into(), format!("(a == b) is {eq}, reference equality says otherwise"),
+                        json!({"a": show(&a.text), "b": show(&bb.text)}));
+                }
+                if eq && a.hash != bb.hash {
+                    f.push("C12:https-eq-hash".into(), "equal URIs hash differently".into(), json!({"a": show(&a.text), "b": show(&bb.text)}));
+                }
+                if a.cls == bb.cls {
+                    equal += 1;
+                }
+            }
+            for arg in args {
+                let (_, joined) = https_join(&a.uri, arg, &mut f);
+                if joined { ok += 1 } else { err += 1 }
+                n += 1;
+            }
+        }
+        (f, n, equal, ok, err, dom.len())
+    });
+    let (f, n, equal, ok, err, size) = res?;
+    c.evals += n;
+    c.joins_ok += ok;
+    c.joins_err += err;
+    f.flush(ctx);
+    Some((equal, size))
+}
+
+//------------ size-dependent behaviour -----------------------------------------
+
+/// Lengths around which fixed-size buffers, SIMD lanes and small-string
+/// optimisations typically change behaviour.
+const SIZE_EDGES: [usize; 24] = [
+    15, 16, 17, 31, 32, 33, 63, 64, 65, 127, 128, 129, 255, 256, 257, 511, 512, 513, 1023, 1024, 1025, 4095, 4096, 4097,
+];
+
+#[derive(Clone, Copy, Debug, PartialEq, Eq)]
+enum Comp {
+    Authority,
+    Module,
+    Path,
+}
+
+/// One family of the size sweep: `rsync` or https, the component that is made
+/// long, the target length, and whether the *component* has that length or
+/// the text *up to the end of the component* has it.
+#[derive(Clone, Copy, Debug)]
+struct SizeSpec {
+    rsync: bool,
+    comp: Comp,
+    len: usize,
+    absolute: bool,
+}
+
+fn size_specs() -> Vec<SizeSpec> {
+    let mut v = Vec::new();
+    for &len in SIZE_EDGES.iter() {
+        for absolute in [false, true] {
+            for (rsync, comp) in [(true, Comp::Authority), (true, Comp::Module), (true, Comp::Path), (false, Comp::Authority), (false, Comp::Path)] {
+                v.push(SizeSpec { rsync, comp, len, absolute });
+            }
+        }
+    }
+    v
+}
+
+const LONG_LETTERS: &[u8] = b"abcdefghijklmnopqrstuvwxyzABCDEFGHIJKLMNOPQRSTUVWXYZ";
+
+/// `n` characters, mostly letters of both cases; `seps` are sprinkled in
+/// (never first, last or twice in a row) so that long host names have labels
+/// and long paths have segments.
+fn long_token(rng: &mut Rng, n: usize, seps: &[u8]) -> Vec<u8> {
+    let mut t: Vec<u8> = Vec::with_capacity(n);
+    for i in 0..n {
+        let prev_sep = t.last().map(|c| !c.is_ascii_alphanumeric()).unwrap_or(true);
+        if !seps.is_empty() && !prev_sep && i + 1 < n && rng.chance(1, 12) {
+            t.push(*rng.pick(seps));
+        } else if rng.chance(1, 10) {
+            t.push(b'0' + rng.below(10) as u8);
+        } else {
+            t.push(*rng.pick(LONG_LETTERS));
+        }
+    }
+    t
+}
+
+/// The members of one size family and the range of the long component.
+/// Returns (texts, component range, positions where single letters were flipped).
+fn size_family(rng: &mut Rng, spec: SizeSpec, max_flips: usize) -> Option<(Vec<Vec<u8>>, (usize, usize), Vec<usize>)> {
+    // short companions
+    let auth = rand_token(rng, b"abcxyzABCXYZ0129", 1, 6);
+    let module = rand_token(rng, b"abcxyzABCXYZ0129", 1, 5);
+    let scheme: &[u8] = if spec.rsync { b"rsync://" } else { b"https://" };
+    // where the long component starts
+    let start = match (spec.rsync, spec.comp) {
+        (_, Comp::Authority) => 8,
+        (true, Comp::Module) => 8 + auth.len() + 1,
+        (true, Comp::Path) => 8 + auth.len() + 1 + module.len() + 1,
+        (false, Comp::Path) => 8 + auth.len() + 1,
+        (false, Comp::Module) => return None,
+    };
+    let clen = if spec.absolute { spec.len.checked_sub(start)? } else { spec.len };
+    if clen == 0 {
+        return None;
+    }
+    let long = match spec.comp {
+        Comp::Authority => {
+            // labels separated by dots, sometimes a port at the end
+            let mut t = long_token(rng, clen, b".-");
+            if clen > 6 && rng.chance(1, 4) {
+                let n = t.len();
+                t[n - 4] = b':';
+                for c in t[n - 3..].iter_mut() {
+                    *c = b'0' + rng.below(10) as u8;
+                }
+                if !t[n - 5].is_ascii_alphanumeric() {
+                    t[n - 5] = b'a';
+                }
+            }
+            t
+        }
+        Comp::Module => long_token(rng, clen, b"-_."),
+        Comp::Path => {
+            if rng.bool() { long_token(rng, clen, b"/._-") } else { long_token(rng, clen, b"") }
+        }
+    };
+    let mut base = scheme.to_vec();
+    match (spec.rsync, spec.comp) {
+        (true, Comp::Authority) => {
+            base.extend_from_slice(&long);
+            base.push(b'/');
+            base.extend_from_slice(&module);
+            base.extend_from_slice(b"/p/q.cer");
+        }
+        (true, Comp::Module) => {
+            base.extend_from_slice(&auth);
+            base.push(b'/');
+            base.extend_from_slice(&long);
+            base.extend_from_slice(b"/p/q.cer");
+        }
+        (true, Comp::Path) => {
+            base.extend_from_slice(&auth);
+            base.push(b'/');
+            base.extend_from_slice(&module);
+            base.push(b'/');
+            base.extend_from_slice(&long);
+        }
+        (false, Comp::Authority) => {
+            base.extend_from_slice(&long);
+            if rng.chance(3, 4) {
+                base.extend_from_slice(b"/p/q.xml");
+            }
+        }
+        (false, _) => {
+            base.extend_from_slice(&auth);
+            base.push(b'/');
+            base.extend_from_slice(&long);
+        }
+    }
+    let end = start + clen;
+    // positions of single-letter case flips: both ends of the component and
+    // the neighbourhood of every edge, counted from the start of the text and
+    // from the start of the component
+    let mut want: Vec<usize> = vec![start, start + 1, end - 1, end.saturating_sub(2).max(start), start + clen / 2];
+    for &e in SIZE_EDGES.iter() {
+        for d in [e.wrapping_sub(1), e, e + 1] {
+            want.push(d);
+            want.push(start + d);
+        }
+        // counted from the end as well (tail handling of chunked loops)
+        if let Some(p) = end.checked_sub(e) {
+            want.push(p);
+        }
+    }
+    let mut flips: Vec<usize> = Vec::new();
+    for p in want {
+        if p < start || p >= end {
+            continue;
+        }
+        // the nearest letter at or after p (inside the component), else before
+        let q = (p..end).find(|&i| base[i].is_ascii_alphabetic()).or_else(|| (start..p).rev().find(|&i| base[i].is_ascii_alphabetic()));
+        if let Some(q) = q {
+            if !flips.contains(&q) {
+                flips.push(q);
+            }
+        }
+    }
+    if flips.len() > max_flips {
+        // keep the ends and a spread of the rest
+        let keep_every = flips.len().div_ceil(max_flips);
+        // (the first three wanted positions are the first, second and last letter of the component)
+        let ends: Vec<usize> = [flips[0], flips[2.min(flips.len() - 1)]].into_iter().collect();
+        let mut rest: Vec<usize> = flips.iter().copied().skip(3).enumerate().filter(|(i, _)| i % keep_every == 0).map(|(_, p)| p).collect();
+        let mut all = ends;
+        all.append(&mut rest);
+        all.truncate(max_flips);
+        flips = all;
+    }
+    let mut fam: Vec<Vec<u8>> = vec![base.clone()];
+    for &p in &flips {
+        let mut t = base.clone();
+        t[p] ^= 0x20;
+        fam.push(t);
+    }
+    if max_flips <= 4 {
+        // the interpreter stages: the base and its single-letter variants only
+        return Some((fam, (start, end), flips));
+    }
+    // the whole component in the other case, two random multi-letter variants, scheme case
+    let mut t = base.clone();
+    t[start..end].make_ascii_uppercase();
+    fam.push(t);
+    let mut t = base.clone();
+    t[start..end].make_ascii_lowercase();
+    fam.push(t);
+    for _ in 0..2 {
+        let mut t = base.clone();
+        flip_case(rng, &mut t[start..end]);
+        fam.push(t);
+    }
+    let mut t = base.clone();
+    t[..5].make_ascii_uppercase();
+    if let Some(&p) = flips.last() {
+        t[p] ^= 0x20;
+    }
+    fam.push(t);
+    // neighbours in the path algebra: trailing slash, a child, the text-level parent
+    if base.last() != Some(&b'/') {
+        let mut t = base.clone();
+        t.push(b'/');
+        fam.push(t.clone());
+        t.extend_from_slice(b"x");
+        fam.push(t);
+    }
+    let floor = if spec.rsync { model_rsync(&base).map(|p| p.path_start).unwrap_or(base.len()) } else { authority_end(&base) + 1 };
+    if let Some(cut) = strip1(&base).iter().rposition(|&c| c == b'/') {
+        if cut + 1 >= floor.min(base.len()) && cut + 1 < base.len() {
+            fam.push(base[..cut + 1].to_vec());
+        }
+    }
+    // one character longer / shorter in the long component (sibling sharing a long prefix)
+    let mut t = base.clone();
+    t.insert(end, b'z');
+    fam.push(t);
+    if clen > 1 && base[end - 1].is_ascii_alphanumeric() && base[end - 2].is_ascii_alphanumeric() {
+        let mut t = base.clone();
+        t.remove(end - 1);
+        fam.push(t);
+    }
+    fam.dedup();
+    Some((fam, (start, end), flips))
+}
+
+fn size_families(ctx: &mut Ctx, c: &mut Counters) {
+    let mut rng = ctx.rng("size-families");
+    let specs = size_specs();
+    let miri = ctx.is_miri();
+    let (max_len, max_flips) = match (ctx.stage, ctx.tier) {
+        (Stage::Miri, Tier::Quick) => (65, 2),
+        (Stage::Miri, Tier::Thorough) => (129, 4),
+        (Stage::Asan, _) | (Stage::Valgrind, _) => (1025, 24),
+        (_, Tier::Quick) => (4097, 48),
+        (_, Tier::Thorough) => (4097, 400),
+    };
+    let rounds = match (ctx.stage, ctx.tier) {
+        (Stage::Native, Tier::Thorough) => 6,
+        _ => 1,
+    };
+    let mut families = 0u64;
+    let mut members = 0u64;
+    let mut longest = 0u64;
+    // Miri: one small family per shard, text lengths 16 / 64 / 65 through the long component
+    let miri_pick = {
+        let cands: Vec<usize> = (0..specs.len()).filter(|&i| matches!(specs[i].len, 16 | 64 | 65) && specs[i].absolute).collect();
+        cands[(ctx.shard as usize * 7 + ctx.seed as usize) % cands.len()]
+    };
+    for round in 0..rounds {
+        for (idx, spec) in specs.iter().enumerate() {
+            if spec.len > max_len {
+                continue;
+            }
+            if miri {
+                if miri_pick != idx {
+                    continue;
+                }
+            } else if !ctx.mine((idx + round) as u64) {
+                continue;
+            }
+            let Some((texts, (start, end), flips)) = size_family(&mut rng, *spec, max_flips) else { continue };
+            let long_arg = long_token(&mut rng, spec.len.min(600), b"");
+            let mut seg_arg = long_token(&mut rng, spec.len.min(300), b"/");
+            seg_arg.push(b'/');
+            let args: Vec<Vec<u8>> = if miri { vec![b"x".to_vec()] } else { vec![Vec::new(), b"x/y".to_vec(), long_arg, seg_arg] };
+            let scheme = if spec.rsync { "rsync" } else { "https" };
+            let r = if spec.rsync {
+                rsync_family_laws(ctx, c, &texts, &args, "size-family")
+            } else {
+                https_family_laws(ctx, c, &texts, &args, "size-family")
+            };
+            if let Some((related, size)) = r {
+                families += 1;
+                members += size as u64;
+                longest = longest.max(texts.iter().map(|t| t.len()).max().unwrap_or(0) as u64);
+                ctx.sig(&format!(
+                    "size-family {scheme} long={:?} {}={} flips={} related={}",
+                    spec.comp,
+                    if spec.absolute { "text-length-through-component" } else { "component-length" },
+                    spec.len,
+                    flips.len().min(50),
+                    if related as usize > size { "more-than-members" } else { "members-only" },
+                ));
+                if spec.len == 65 && spec.absolute && spec.comp == Comp::Authority {
+                    ctx.sample("size family (long authority)", || json!({
+                        "scheme": scheme, "component": format!("{:?}", spec.comp), "component_range": [start, end],
+                        "single_letter_flips_at": flips, "members": size, "related_or_equal_pairs": related, "base": show(&texts[0]),
+                    }));
+                }
+            }
+        }
+    }
+    ctx.obs("size_families", families);
+    ctx.obs("size_family_members", members);
+    ctx.obs_max("size_family_longest_uri", longest);
+}
+
 pub fn run(ctx: &mut Ctx) {
     let b = bounds(ctx);
     let miri_scale: u64 = if ctx.tier == Tier::Thorough { 4 } else { 1 };
@@ -1380,56 +1784,8 @@ pub fn run(ctx: &mut Ctx) {
         for fi in 0..n {
             // rsync
             let texts = rsync_family(&mut rng);
-            let mut items = Vec::new();
-            for t in &texts {
-                let (r, _) = offer(ctx, &mut c, t, "parse-family");
-                match r {
-                    Some(u) => items.push((t.clone(), u)),
-                    None => ctx.obs("family_member_rejected", 1),
-                }
-            }
             let args: Vec<Vec<u8>> = (0..3).map(|_| rand_join_arg(&mut rng)).collect();
-            let res = ctx.no_panic("rsync-family", || json!({"family": texts.iter().map(|t| show(t)).collect::<Vec<_>>()}), || {
-                let mut f = Findings::default();
-                let (dom, _) = build_domain(items, true);
-                let mut n = 0u64;
-                let mut related = 0u64;
-                let (mut ok, mut err) = (0u64, 0u64);
-                for i in 0..dom.len() {
-                    for j in 0..dom.len() {
-                        let (rel, _) = rsync_pair(&dom, i, j, &mut f);
-                        if rel {
-                            related += 1;
-                        }
-                        n += 1;
-                    }
-                    for a in &args {
-                        let (_, joined) = rsync_join(&dom[i].uri, a, &mut f);
-                        if joined { ok += 1 } else { err += 1 }
-                        n += 1;
-                    }
-                }
-                for i in 0..dom.len() {
-                    for j in 0..dom.len() {
-                        if !dom[i].uri.is_parent_of(&dom[j].uri) {
-                            continue;
-                        }
-                        for k in 0..dom.len() {
-                            n += 1;
-                            if dom[j].uri.is_parent_of(&dom[k].uri) && !dom[i].uri.is_parent_of(&dom[k].uri) {
-                                f.push("C12:rsync-is_parent_of:not-transitive".into(), "a is parent of b, b is parent of c, but a is not parent of c".into(),
-                                    json!({"a": show(&dom[i].text), "b": show(&dom[j].text), "c": show(&dom[k].text)}));
-                            }
-                        }
-                    }
-                }
-                (f, n, related, ok, err, dom.len())
-            });
-            if let Some((f, n, related, ok, err, size)) = res {
-                c.evals += n;
-                c.joins_ok += ok;
-                c.joins_err += err;
-                f.flush(ctx);
+            if let Some((related, size)) = rsync_family_laws(ctx, &mut c, &texts, &args, "family") {
                 if fi < 3_000 {
                     ctx.sig(&format!("rsync family size={size} related-pairs={}", related.min(40)));
                 }
@@ -1439,48 +1795,13 @@ pub fn run(ctx: &mut Ctx) {
             }
             // https
             let texts = https_family(&mut rng);
-            let mut items = Vec::new();
-            for t in &texts {
-                let (_, h) = offer(ctx, &mut c, t, "parse-family");
-                match h {
-                    Some(u) => items.push((t.clone(), u)),
-                    None => ctx.obs("family_member_rejected", 1),
-                }
-            }
             let args: Vec<Vec<u8>> = (0..3).map(|_| rand_join_arg(&mut rng)).collect();
-            let res = ctx.no_panic("https-family", || json!({"family": texts.iter().map(|t| show(t)).collect::<Vec<_>>()}), || {
-                let mut f = Findings::default();
-                let (dom, _) = build_domain(items, false);
-                let mut n = 0u64;
-                let (mut ok, mut err) = (0u64, 0u64);
-                for a in dom.iter() {
-                    for bb in dom.iter() {
-                        n += 1;
-                        let eq = a.uri == bb.uri;
-                        if eq != (a.cls == bb.cls) {
-                            f.push("C12:https-eq-vs-reference".into(), format!("(a == b) is {eq}, reference equality says otherwise"),
-                                json!({"a": show(&a.text), "b": show(&bb.text)}));
-                        }
-                        if eq && a.hash != bb.hash {
-                            f.push("C12:https-eq-hash".into(), "equal URIs hash differently".into(), json!({"a": show(&a.text), "b": show(&bb.text)}));
-                        }
-                    }
-                    for arg in &args {
-                        let (_, joined) = https_join(&a.uri, arg, &mut f);
-                        if joined { ok += 1 } else { err += 1 }
-                        n += 1;
-                    }
-                }
-                (f, n, ok, err)
-            });
-            if let Some((f, n, ok, err)) = res {
-                c.evals += n;
-                c.joins_ok += ok;
-                c.joins_err += err;
-                f.flush(ctx);
-            }
+            https_family_laws(ctx, &mut c, &texts, &args, "family");
         }
     }
+
+    //---- 6. size-dependent behaviour: long components, case differences at every region
+    size_families(ctx, &mut c);
 
     //---- evidence ------------------------------------------------------------
     ctx.evals(c.evals);
